@@ -636,6 +636,8 @@ func runOne(t *testing.T, run *vh.Run, r *vh.Rand, c *Case, exhaustiveLimit int)
 		liveHistoryCase(t, run, c)
 	case "size":
 		sizeCase(t, run, c, false)
+	case "bare":
+		bareCase(t, run, r, c)
 	case "limits":
 		limitsCase(t, run, c)
 	case "conc":
@@ -696,6 +698,11 @@ func TestCheck(t *testing.T) {
 			c := genChain(r.Fork(), cs.store, cs.sizes, cs.initN, cs.tick)
 			runChain(t, run, r.Fork(), &c, 400)
 			run.Count("chains", storeName(cs.store))
+		}
+		// the same protocol runs with a BARE snapshot file name (cwd = data dir) and $TMPDIR elsewhere
+		for _, st := range []int{storeSilence, storeNflog} {
+			c := genBare(r.Fork(), st)
+			bareCase(t, run, r.Fork(), &c)
 		}
 		// crash CHAINS: an interrupted snapshot of a large state (temp files left behind under their real names), then a
 		// completed snapshot of a smaller state in the same directory, then restart
